@@ -26,6 +26,7 @@ ASSUMPTIONS = [
     "for an income row that also carries a fee either fiat_in_no_fee or fiat_in_with_fee is accepted as 'its fiat value'",
     "amounts <= 11 decimals; histories valid by construction (no over-spend)",
 ]
+RULE += e2e.RULE_SUFFIX
 
 CFG = gen.GenCfg(min_steps=4, max_steps=18, force_type_cycle=True, shared_uid_prob=0.15)
 REL = Fraction(1, 10**20)
